@@ -173,7 +173,7 @@ func (e *eng) envCase(r layRow, i int) {
 	} else {
 		y.WriteString("    variations:\n      - VN: \"1\"\n")
 	}
-	y.WriteString("    command:\n      - echo \"OBS$VN X=[$X] T=[$TASK_NAME] U=[$UNTOUCHED] lx=[$x] ltn=[$task_name]\"\n")
+	y.WriteString("    command:\n      - echo \"OBS$VN X=[$X] T=[$TASK_NAME] U=[$UNTOUCHED] lx=[$x] ltn=[$task_name] px=[$(printenv X)]\"\n")
 	// the stage is named differently from its task in every other row: TASK_NAME stays the task's name
 	if r.Ord == "asc" {
 		y.WriteString("pipelines:\n  p:\n    - name: stage-one\n      task: t\n")
@@ -223,11 +223,11 @@ func (e *eng) envCase(r layRow, i int) {
 			wantLater = fmt.Sprintf("v%d", r.Later)
 		}
 		obs2, _ := find(res.Stdout, "OBS2 ")
-		if w2 := fmt.Sprintf("X=[%s] T=[t] U=[pass=through=x] lx=[lower-x] ltn=[lower-tn]", wantLater); obs2 != w2 {
+		if w2 := fmt.Sprintf("X=[%s] T=[t] U=[pass=through=x] lx=[lower-x] ltn=[lower-tn] px=[%s]", wantLater, wantLater); obs2 != w2 {
 			add("value-of-an-earlier-variation-visible", fmt.Sprintf("in the second variation (which does not define X) the command saw %q, model %q", obs2, w2))
 		}
 	}
-	wantLine := fmt.Sprintf("X=[%s] T=[t] U=[pass=through=x] lx=[lower-x] ltn=[lower-tn]", want)
+	wantLine := fmt.Sprintf("X=[%s] T=[t] U=[pass=through=x] lx=[lower-x] ltn=[lower-tn] px=[%s]", want, want)
 	if obs != wantLine {
 		kind := "wrong-level-wins"
 		if !strings.Contains(obs, "T=[t]") {
@@ -362,6 +362,8 @@ func (e *eng) varCase(r layRow, i int) {
 	if r.has(3) {
 		fmt.Fprintf(&y, "    variables:\n      w: %s\n", yq(v(3)))
 	}
+	// the task's hooks resolve the variable like its commands do
+	y.WriteString("    before:\n      - echo \"HOOKB w=[{{.w}}]\"\n    after:\n      - echo \"HOOKA w=[{{.w}}]\"\n")
 	fmt.Fprintf(&y, "    command:\n      - echo first >> %s\n      - echo \"OBS w=[{{.w}}] root=[{{.Root}}] tmp=[{{.TempDir}}] args=[{{.Args}}] list={{.ArgsList}} o=[{{.other}}] e=[{{.emp}}]\"\n", filepath.Join(d, "trace"))
 	y.WriteString("pipelines:\n  p:\n    - task: t\n")
 	if r.has(4) {
@@ -424,6 +426,25 @@ func (e *eng) varCase(r layRow, i int) {
 			kind = "run-failed"
 		}
 		add(kind, fmt.Sprintf("commands printed %q (exit %d), model %q (fails=%v)", obsAll, res.Exit, want, wantFail))
+	}
+	for _, hk := range []string{"HOOKB", "HOOKA"} {
+		var got, exp []string
+		for _, l := range lines(res.Stdout) {
+			if k := strings.Index(l, hk+" "); k >= 0 {
+				got = append(got, l[k+len(hk)+1:])
+			}
+		}
+		for _, x := range []int{r.Expect, r.Later} {
+			if x != 0 && (x == r.Expect || r.Mode == "stage") && len(exp) < len(want) {
+				exp = append(exp, fmt.Sprintf("w=[v%d%s]", x, varTail))
+			}
+		}
+		if r.Expect == 0 {
+			exp = nil
+		}
+		if strings.Join(got, "\n") != strings.Join(exp, "\n") {
+			add("hook-resolves-variable-differently", fmt.Sprintf("the task's %s hook printed %q, its commands %q: the model gives %q", map[string]string{"HOOKB": "before", "HOOKA": "after"}[hk], got, obsAll, exp))
+		}
 	}
 	if i%20 == 3 {
 		e.samples.Add(map[string]interface{}{"kind": "var", "defs": r.Defs, "order": r.Ord, "mode": r.Mode, "expected": want})
